@@ -345,6 +345,24 @@ class Fold(ast.NodeTransformer):
         ast.fix_missing_locations(new)
         return new
 
+    def visit_Assign(self, node):
+        self.generic_visit(node)
+        v = node.value
+        # a, b = map(f, (x, y))   ->   a, b = (f(x), f(y))
+        if len(node.targets) == 1 and isinstance(node.targets[0], (ast.Tuple, ast.List)) and isinstance(v, ast.Call) and isinstance(v.func, ast.Name) and v.func.id == 'map' \
+                and len(v.args) >= 2 and not v.keywords and all(isinstance(a, (ast.Tuple, ast.List)) and not any(isinstance(x, ast.Starred) for x in a.elts) for a in v.args[1:]) \
+                and len({len(a.elts) for a in v.args[1:]}) == 1 and len(v.args[1].elts) == len(node.targets[0].elts) and isinstance(v.args[0], (ast.Name, ast.Attribute, ast.Lambda)):
+            calls = [ast.Call(func=copy.deepcopy(v.args[0]), args=[copy.deepcopy(a.elts[i]) for a in v.args[1:]], keywords=[]) for i in range(len(v.args[1].elts))]
+            node.value = ast.copy_location(ast.Tuple(elts=calls, ctx=ast.Load()), v)
+            ast.fix_missing_locations(node)
+            self.changed = True
+        return node
+
+    def visit_Name(self, node):
+        if node.id == 'Ellipsis' and isinstance(node.ctx, ast.Load):
+            return self.hit(ast.Constant(value=Ellipsis), node)        # the builtin name and the literal `...` are the same object
+        return node
+
     def visit_Subscript(self, node):
         self.generic_visit(node)
         if not isinstance(node.ctx, ast.Load):
@@ -502,9 +520,15 @@ class Fold(ast.NodeTransformer):
 
     def visit_BinOp(self, node):
         self.generic_visit(node)
-        if isinstance(node.op, ast.Add) and isinstance(node.left, ast.Tuple) and isinstance(node.right, ast.Tuple) \
-                and not any(isinstance(x, ast.Starred) for x in node.left.elts + node.right.elts):
+        if isinstance(node.op, ast.Add) and isinstance(node.left, ast.Tuple) and isinstance(node.right, ast.Tuple):
             return self.hit(ast.Tuple(elts=node.left.elts + node.right.elts, ctx=ast.Load()), node)
+        # (a, b) + t  ->  (a, b, *t)   and   t + (a, b)  ->  (*t, a, b)      for t a name / tuple(...) call: tuple concatenation written as a display
+        def tupleish(e):
+            return isinstance(e, ast.Name) or (isinstance(e, ast.Call) and isinstance(e.func, ast.Name) and e.func.id == 'tuple')
+        if isinstance(node.op, ast.Add) and isinstance(node.left, ast.Tuple) and node.left.elts and tupleish(node.right):
+            return self.hit(ast.Tuple(elts=node.left.elts + [ast.Starred(value=node.right, ctx=ast.Load())], ctx=ast.Load()), node)
+        if isinstance(node.op, ast.Add) and isinstance(node.right, ast.Tuple) and node.right.elts and tupleish(node.left):
+            return self.hit(ast.Tuple(elts=[ast.Starred(value=node.left, ctx=ast.Load())] + node.right.elts, ctx=ast.Load()), node)
         if isinstance(node.op, ast.Add) and isinstance(node.left, ast.Constant) and isinstance(node.right, ast.Constant) and isinstance(node.left.value, str) and isinstance(node.right.value, str):
             return self.hit(ast.Constant(value=node.left.value + node.right.value), node)
         return node
@@ -679,18 +703,42 @@ class _FnInfo:
     def single(self, name):
         return self.counts.get(name, 0) == 1 and name not in self.params
 
-    def stable_after(self, names, stmt):
-        """none of `names` is (re)bound by a statement at or after `stmt` (in pre-order), and `stmt` is not inside a loop"""
+    def stable_after(self, names, stmt, uses=None):
+        """none of `names` is (re)bound by a statement at or after `stmt` (in pre-order), and `stmt` is not inside a loop.
+        With `uses` (the Load nodes that will be replaced): a re-binding after the last use is harmless, and so is one BY the statement of the last use when
+        the uses sit in the value of that assignment (the value is evaluated first) - provided no use is inside a loop"""
         if self.loops.get(id(stmt), True):
             return False
         at = self.order.get(id(stmt))
         if at is None:
             return False
+        last, last_stmt = None, None
+        if uses:
+            if any(self.loops.get(self.owner.get(id(u)), True) for u in uses):
+                uses = None
+            else:
+                for u in uses:
+                    o = self.order.get(self.owner.get(id(u)))
+                    if o is None:
+                        uses = None
+                        break
+                    if last is None or o > last:
+                        last, last_stmt = o, self.owner.get(id(u))
+        stmt_by_id = None
         for n in ast.walk(self.fn):
             if isinstance(n, ast.Name) and isinstance(n.ctx, (ast.Store, ast.Del)) and n.id in names:
                 st = self.owner.get(id(n))
                 o = self.order.get(st)
                 if o is None or o >= at:
+                    if uses and last is not None and o is not None:
+                        if o > last:
+                            continue
+                        if o == last:
+                            if stmt_by_id is None:
+                                stmt_by_id = {id(x): x for x in ast.walk(self.fn) if isinstance(x, ast.stmt)}
+                            ls = stmt_by_id.get(last_stmt)
+                            if isinstance(ls, ast.Assign) and all(any(y is u for y in ast.walk(ls.value)) for u in uses if self.owner.get(id(u)) == last_stmt):
+                                continue
                     # the binding statement itself binds only its own target
                     return False
             if isinstance(n, ast.arg) and n.arg in names and n.arg not in self.params:
@@ -756,6 +804,26 @@ def _propagate_locals(fn, ctx):
         free = _free_names(val) - {name}
         if isinstance(val, ast.Lambda):
             free -= {x.arg for x in val.args.args}
+        if kind == 'ref' and isinstance(val, ast.Attribute) and info.order.get(id(asg)) is not None and isinstance(val.value, ast.Name):
+            # x = self.attr  (an aggregate held in an attribute, read into a local): when the attribute is not re-bound in this function every later use of x is a use of
+            # self.attr - also as the base of a subscript store (same object)
+            at0 = info.order[id(asg)]
+            rebound = any(isinstance(n, ast.Attribute) and n.attr == val.attr and isinstance(n.ctx, (ast.Store, ast.Del)) for n in ast.walk(fn))
+            late = [ld for ld in loads if info.order.get(info.owner.get(id(ld)), -1) > at0]
+            base_ok = info.counts.get(val.value.id, 0) == 0 or val.value.id in info.params
+            sub_only = all(isinstance(info.parents.get(id(ld)), ast.Subscript) and info.parents[id(ld)].value is ld for ld in late)
+            if not rebound and late and len(late) == len(loads) and base_ok and sub_only and not info.loops.get(id(asg), True) is None:
+                ids3 = {id(x) for x in late}
+
+                class Sub3(ast.NodeTransformer):
+                    def visit_Name(self, n):
+                        if id(n) in ids3:
+                            return ast.copy_location(copy.deepcopy(val), n)
+                        return n
+                Sub3().visit(fn)
+                _remove_stmt(fn, asg)
+                ast.fix_missing_locations(fn)
+                return True
         if kind == 'ref' and isinstance(val, ast.Attribute) and info.order.get(id(asg)) is not None:
             # a temporary for an attribute read that is consumed by the very next statement (also inside loops)
             plan2 = _attr_temp_uses(info, asg, loads)
@@ -771,7 +839,7 @@ def _propagate_locals(fn, ctx):
                 _remove_stmt(fn, asg)
                 ast.fix_missing_locations(fn)
                 return True
-        if not info.stable_after(free, asg):
+        if not info.stable_after(free, asg, uses=loads if kind in ('seq', 'dict', 'callable') else None):
             continue
         at = info.order.get(id(asg))
         if at is None:
@@ -1249,6 +1317,134 @@ def _bool_flags(fn):
     return changed[0]
 
 
+def _flatten_product_loops(fn):
+    """for T in (E for a in A for b in B): BODY              ->  for a in A: for b in B: T = E ; BODY
+       for k, T in enumerate(E for a in A for b in B): BODY  ->  k = 0 ; for a in A: for b in B: T = E ; BODY ; k += 1      (no break / continue in BODY, k not read afterwards)"""
+    changed = [False]
+
+    def block(stmts):
+        out = []
+        for idx, s in enumerate(stmts):
+            for fld in ('body', 'orelse', 'finalbody'):
+                v = getattr(s, fld, None)
+                if isinstance(v, list) and v and isinstance(v[0], ast.stmt) and not isinstance(s, (ast.FunctionDef, ast.ClassDef)):
+                    setattr(s, fld, block(v))
+            if isinstance(s, ast.For) and not s.orelse:
+                it, counter, tgt = s.iter, None, s.target
+                if isinstance(it, ast.Call) and isinstance(it.func, ast.Name) and it.func.id == 'enumerate' and len(it.args) == 1 and not it.keywords \
+                        and isinstance(tgt, ast.Tuple) and len(tgt.elts) == 2 and isinstance(tgt.elts[0], ast.Name):
+                    counter, tgt, it = tgt.elts[0].id, tgt.elts[1], it.args[0]
+                if isinstance(it, ast.GeneratorExp) and len(it.generators) >= 2 and all(not g.ifs and not g.is_async for g in it.generators):
+                    gen_names = {n.id for g in it.generators for n in ast.walk(g.target) if isinstance(n, ast.Name)}
+                    body_names_stored = {n.id for st in s.body for n in ast.walk(st) if isinstance(n, ast.Name) and isinstance(n.ctx, (ast.Store, ast.Del))}
+                    jumps = any(isinstance(n, (ast.Break, ast.Continue)) for st in s.body for n in ast.walk(st))
+                    later = counter is not None and any(isinstance(n, ast.Name) and n.id == counter for st in stmts[idx + 1:] for n in ast.walk(st))
+                    # the generator's variables live in their own scope: after flattening they become locals of the function - they must not clash with other uses
+                    other_uses = {n.id for st in stmts[:idx] + stmts[idx + 1:] for n in ast.walk(st) if isinstance(n, ast.Name)}
+                    tgt_names = {n.id for n in ast.walk(tgt) if isinstance(n, ast.Name)}
+                    clash = (gen_names - tgt_names) & (other_uses | body_names_stored)
+                    if not jumps and not later and not clash and not (counter and counter in body_names_stored):
+                        inner = [ast.Assign(targets=[copy.deepcopy(tgt)], value=copy.deepcopy(it.elt))] + list(s.body)
+                        if counter:
+                            inner.append(ast.AugAssign(target=ast.Name(id=counter, ctx=ast.Store()), op=ast.Add(), value=ast.Constant(value=1)))
+                        for g in reversed(it.generators):
+                            inner = [ast.For(target=g.target, iter=g.iter, body=inner, orelse=[], type_comment=None)]
+                        new = ([ast.Assign(targets=[ast.Name(id=counter, ctx=ast.Store())], value=ast.Constant(value=0))] if counter else []) + inner
+                        for n in new:
+                            ast.copy_location(n, s)
+                            ast.fix_missing_locations(n)
+                        out.extend(new)
+                        changed[0] = True
+                        continue
+            out.append(s)
+        return out
+    fn.body = block(fn.body)
+    return changed[0]
+
+
+def _induction_vars(fn):
+    """k = c ; for i in range(A): [S] for j in range(B): BODY(k) ; k += 1        ->   for i in range(A): [S] for j in range(B): BODY(c + i * B + j)
+    (k bound only by the initialisation and the single increment - the last statement of the innermost body; loops perfectly nested around the increment;
+    range(..) with one argument; no break / continue; k not read after the loops)"""
+    changed = [False]
+
+    def rng(loop):
+        it = loop.iter
+        if isinstance(loop.target, ast.Name) and isinstance(it, ast.Call) and isinstance(it.func, ast.Name) and it.func.id == 'range' and len(it.args) == 1 and not it.keywords:
+            return loop.target.id, it.args[0]
+        return None
+
+    def block(stmts):
+        out = []
+        i = 0
+        while i < len(stmts):
+            s = stmts[i]
+            for fld in ('body', 'orelse', 'finalbody'):
+                v = getattr(s, fld, None)
+                if isinstance(v, list) and v and isinstance(v[0], ast.stmt) and not isinstance(s, (ast.FunctionDef, ast.ClassDef)):
+                    setattr(s, fld, block(v))
+            nxt = stmts[i + 1] if i + 1 < len(stmts) else None
+            if isinstance(s, ast.Assign) and len(s.targets) == 1 and isinstance(s.targets[0], ast.Name) and isinstance(s.value, ast.Constant) and isinstance(s.value.value, int) \
+                    and not isinstance(s.value.value, bool) and isinstance(nxt, ast.For) and not nxt.orelse:
+                k = s.targets[0].id
+                chain, cur = [], nxt
+                ok = True
+                while True:
+                    r = rng(cur)
+                    if r is None or cur.orelse:
+                        ok = False
+                        break
+                    chain.append((cur, r[0], r[1]))
+                    inner = [x for x in cur.body if isinstance(x, ast.For)]
+                    last = cur.body[-1] if cur.body else None
+                    if isinstance(last, ast.AugAssign) and isinstance(last.target, ast.Name) and last.target.id == k:
+                        break
+                    if len(inner) != 1:
+                        ok = False
+                        break
+                    # statements of this level other than the inner loop must not touch k
+                    if any(isinstance(n, ast.Name) and n.id == k for x in cur.body if x is not inner[0] for n in ast.walk(x)):
+                        ok = False
+                        break
+                    cur = inner[0]
+                if ok:
+                    innermost = chain[-1][0]
+                    inc = innermost.body[-1]
+                    ok = isinstance(inc.op, ast.Add) and isinstance(inc.value, ast.Constant) and inc.value.value == 1 and len(innermost.body) >= 2
+                    stores = [n for n in ast.walk(nxt) if isinstance(n, ast.Name) and n.id == k and isinstance(n.ctx, (ast.Store, ast.Del))]
+                    ok = ok and len(stores) == 1
+                    ok = ok and not any(isinstance(n, (ast.Break, ast.Continue)) for n in ast.walk(nxt))
+                    ok = ok and not any(isinstance(n, ast.Name) and n.id == k for st in stmts[i + 2:] for n in ast.walk(st))
+                    loopvars = {c[1] for c in chain}
+                    bound_names = {n.id for c in chain for n in ast.walk(c[2]) if isinstance(n, ast.Name)}
+                    ok = ok and not any(isinstance(n, ast.Name) and isinstance(n.ctx, (ast.Store, ast.Del)) and n.id in (bound_names | loopvars) and not any(n is c[0].target for c in chain)
+                                        for n in ast.walk(nxt))
+                if ok:
+                    # linear index of the iteration:  ((i0 * B1 + i1) * B2 + i2) ...
+                    expr = ast.Name(id=chain[0][1], ctx=ast.Load())
+                    for (_, v, bnd) in chain[1:]:
+                        expr = ast.BinOp(left=ast.BinOp(left=expr, op=ast.Mult(), right=copy.deepcopy(bnd)), op=ast.Add(), right=ast.Name(id=v, ctx=ast.Load()))
+                    if s.value.value != 0:
+                        expr = ast.BinOp(left=ast.Constant(value=s.value.value), op=ast.Add(), right=expr)
+
+                    class Rn(ast.NodeTransformer):
+                        def visit_Name(self, n):
+                            if n.id == k and isinstance(n.ctx, ast.Load):
+                                return ast.copy_location(copy.deepcopy(expr), n)
+                            return n
+                    innermost.body = [Rn().visit(x) for x in innermost.body[:-1]]
+                    ast.fix_missing_locations(nxt)
+                    out.append(nxt)
+                    changed[0] = True
+                    i += 2
+                    continue
+            out.append(s)
+            i += 1
+        return out
+    fn.body = block(fn.body)
+    return changed[0]
+
+
 def _reduce_loops(fn, ctx):
     """x = reduce(f, seq, init)  ->  x = init ; for e in seq: x = f(x, e)       (statement-level assignment / return of a functools.reduce call)"""
     _, red, mods = ctx
@@ -1417,6 +1613,8 @@ def simplify_function(fn, ctx, inliner, cls):
         changed |= _reduce_loops(fn, ctx)
         changed |= _destructure_loop_targets(fn)
         changed |= _bool_flags(fn)
+        changed |= _flatten_product_loops(fn)
+        changed |= _induction_vars(fn)
         if _propagate_locals(fn, ctx):
             changed = True
         elif _record_dicts(fn):
